@@ -150,11 +150,12 @@ func (u *Upstream) Close(ctx context.Context, opts ...UpstreamCloseOption) error
 	if beforeStatus == streamStatusDraining {
 		return errors.Errorf("already draining: %w", errors.ErrStreamClosed)
 	}
-	if beforeStatus != streamStatusResuming {
-		if err := u.waitToSendAllDataPointsAndReceiveAllAck(ctx); err != nil {
-			u.logger.Warnf(ctx, "Failed to waitSentAllDataPointsAndReceivedAllAck: %+v", err)
-		}
+	// also while the stream is resuming: the resume goes on and what is still unacknowledged is retransmitted
+	// before the close request (the wait is bounded by ctx and the close timeout)
+	if err := u.waitToSendAllDataPointsAndReceiveAllAck(ctx); err != nil {
+		u.logger.Warnf(ctx, "Failed to waitSentAllDataPointsAndReceivedAllAck: %+v", err)
 	}
+	_ = beforeStatus
 	return u.closeWithError(ctx, nil, opts...)
 }
 
@@ -229,8 +230,12 @@ func (u *Upstream) waitToSendAllDataPointsAndReceiveAllAck(ctx context.Context) 
 	defer cancel()
 	parentCtx, cancel = context.WithTimeout(parentCtx, u.closeTimeout)
 	defer cancel()
-	if err := u.Flush(ctx); err != nil {
-		return errors.Errorf("failed to flush chunk: %w", err)
+	// (the flush waits for the flush loop, which is not running while the stream resumes: bounded by the close timeout too)
+	fctx, fcancel := context.WithTimeout(ctx, u.closeTimeout)
+	ferr := u.Flush(fctx)
+	fcancel()
+	if ferr != nil {
+		return errors.Errorf("failed to flush chunk: %w", ferr)
 	}
 
 	// wake the wait loop below when the close timeout or the caller's context ends:
@@ -379,7 +384,8 @@ func (u *Upstream) run(isResume bool) error {
 			u.connState.cond.Wait()
 		}
 		u.connState.cond.L.Unlock()
-		u.state.Swap(streamStatusResuming)
+		// (a stream that is being closed stays draining: it is resumed all the same so that Close can finish its work)
+		u.state.CompareAndSwap(streamStatusConnected, streamStatusResuming)
 		return errors.New("unexpected disconnected")
 	})
 	return eg.Wait()
@@ -725,7 +731,7 @@ func (u *Upstream) resume(newConn *wire.ClientConn) error {
 	if u.isClosed() {
 		return fmt.Errorf("already closed upstream")
 	}
-	if !u.state.Is(streamStatusResuming) {
+	if !u.state.Is(streamStatusResuming) && !u.state.Is(streamStatusDraining) {
 		return fmt.Errorf("invalid state want[%v] but[%v]", streamStatusResuming, u.state.Current())
 	}
 	u.wireConnMu.Lock()
@@ -781,6 +787,6 @@ func (u *Upstream) resume(newConn *wire.ClientConn) error {
 			State:  *u.State(),
 		})
 	})
-	u.state.Swap(streamStatusConnected)
+	u.state.CompareAndSwap(streamStatusResuming, streamStatusConnected) // a draining stream stays draining
 	return nil
 }
